@@ -117,6 +117,9 @@ class C08(CheckBase):
                 sel = sorted(rng.sample(actions, rng.randint(1, len(actions))))
                 if rng.random() < 0.2:
                     sel.append('http://example.org/UnknownAction')
+                if rng.random() < 0.25:
+                    sel = ['OperationInvokedReport']
+                    op['svc'] = 'Set'
                 op.update({'owner': rng.randrange(nsub), 'actions': sel,
                            'expires': rng.choice([None, 1, 2, maxdur / 2.0, maxdur, maxdur * 3, 3600]),
                            'end_to': rng.choice(['none', 'none', 'own', 'other']),
@@ -156,6 +159,7 @@ class C08(CheckBase):
         mgr = prov._subscriptions_managers['StateEvent']
         svc = prov.hosted_services.dpws_hosted_services['StateEvent']
         sub_path = f'/{prov.path_prefix}/{svc.path_element}'
+        set_path = f'/{prov.path_prefix}/{prov.hosted_services.dpws_hosted_services["Set"].path_element}'
         paddr = (worldb.PROVIDER_IP, prov._http_server.server_port)
         base = f'http://{paddr[0]}:{paddr[1]}'
         modes = {}  # subscription k -> behaviour
@@ -185,8 +189,10 @@ class C08(CheckBase):
             return f'urn:uuid:00000000-0000-0000-0000-{msgid[0]:012d}'
 
         def audit(where):
-            with mgr._subscriptions.lock:  # housekeeping may be in the middle of a removal
-                p = canon.audit_table(mgr._subscriptions, 'subscriptions')
+            p = []
+            for m_ in prov._subscriptions_managers.values():
+                with m_._subscriptions.lock:  # housekeeping may be in the middle of a removal
+                    p += canon.audit_table(m_._subscriptions, 'subscriptions')
             if p:
                 ctx.violation('C08.table', p[0].split('[')[0], f'{where}: {p[:3]}')
 
@@ -232,11 +238,12 @@ class C08(CheckBase):
                     nref.text = f'n{kk}'
                     eref = etree.Element('{urn:dsim}SubId')
                     eref.text = f'e{kk}'
-                body = peers.mk_subscribe(base + sub_path, ep.url(f'/n{kk}'), sub.actions, op['expires'], end_to, mid(),
+                the_path = set_path if op.get('svc') == 'Set' else sub_path
+                body = peers.mk_subscribe(base + the_path, ep.url(f'/n{kk}'), sub.actions, op['expires'], end_to, mid(),
                                           nref, eref if end_to else None)
                 hdr = {} if op['accept'] is None else {'Accept-Encoding': op['accept']}
                 t_req = s.now
-                r = peers.SoapResponse(clients[owner].post(sub_path, body, hdr))
+                r = peers.SoapResponse(clients[owner].post(the_path, body, hdr))
                 if r.status == 200 and not r.is_fault and r.find('.//wse:SubscriptionManager/wsa:Address') is not None:
                     sub.accepted = True
                     sub.t_req, sub.t_resp = t_req, s.now
@@ -323,7 +330,8 @@ class C08(CheckBase):
                 if not sub.accepted:
                     continue
                 ctx.probe('unknown_id')
-                before = sorted(o.identifier_uuid.hex for o in mgr._subscriptions.objects)
+                all_subs = lambda: [o for m_ in prov._subscriptions_managers.values() for o in m_._subscriptions.objects]  # noqa: E731
+                before = sorted(o.identifier_uuid.hex for o in all_subs())
                 if op['how'] == 'stale':
                     continue  # stale identifiers are exercised by renew/getstatus/unsubscribe on dead subscriptions
                 r, _, _ = mgr_request(sub, op['req'], None, bogus=True)
@@ -333,7 +341,7 @@ class C08(CheckBase):
                 if not r.is_fault:
                     ctx.violation('C08.unknown', f'{op["req"]}:no-fault',
                                   f'{op["req"]} naming an unknown subscription answered with HTTP {r.status} without fault')
-                after = sorted(o.identifier_uuid.hex for o in mgr._subscriptions.objects)
+                after = sorted(o.identifier_uuid.hex for o in all_subs())
                 if set(before) - set(after) and not any(sb.definitely_dead(s.now) or sb.failures for sb in subs):
                     ctx.violation('C08.unknown', 'table-changed', f'request with unknown identifier removed subscriptions')
             elif k == 'advance':
@@ -364,8 +372,10 @@ class C08(CheckBase):
             audit(f'after op {op["id"]} {k}')
         # ---------- stop
         t_stop0 = s.now
-        with worldb.node(worldb.PROVIDER_IP):
-            prov.stop_all(send_subscription_end=plan['stop']['send_end'])
+        finished, exc = w.stop_provider_guarded(plan['stop']['send_end'], max_virtual=plan['world']['max_subscription_duration'] * 8 + 120)
+        if not finished:
+            ctx.violation('C08.end', 'stop_all-does-not-return', 'SdcProvider.stop_all() did not return (live subscriptions '
+                                                                 'never get their SubscriptionEnd):\n' + s.stacks(limit=8)[-3000:])
         t_stop1 = s.now
         s.sleep(0.5)
         self._note_failures(ctx, subs, eps_, other_ep, modes, w, t_stop0)
@@ -392,7 +402,11 @@ class C08(CheckBase):
                     continue
                 affected = [sb]
                 if rec.behaviour[0] != 'status':
-                    affected = [o for o in subs if o.owner == sb.owner]
+                    # everybody who shares that connection (the provider pools one client per host:port)
+                    if ep is other_ep:
+                        affected = [o for o in subs if o.end_kind == 'other']
+                    else:
+                        affected = [o for o in subs if o.owner == sb.owner]
                 for o in affected:
                     if o.fail_t is None or rec.t < o.fail_t:
                         o.fail_t = min(rec.t, t_op0)
